@@ -415,7 +415,7 @@ def _for_one(ex, stmt: ast.For, info, itv: Any, s: State) -> List[Tuple[State, A
             out += unroll(ex, stmt, dom.concrete, s)
             return out
         k = loop_ordinal(info, stmt)
-        inv = ex.contracts.lookup_invariant(info, k) if k >= 0 else None
+        inv = ex.contracts.lookup_invariant(info, k, ex) if k >= 0 else None
         if inv is None:
             raise Unsupported(f"loop #{k} of {info.qualname} (line {stmt.lineno}) has no sidecar invariant"
                               + (" (the function's loops changed and this one cannot be matched to a recorded one)" if k < 0 else ""))
